@@ -47,6 +47,9 @@ HDERIVS = ['none', 'iloc', 'roll', 'sort', 'level_add', 'level_drop_outer', 'fla
            'intersection', 'difference', 'series_index', 'to_go_and_back', 'pickle', 'astype_object', 'relabel_pair']
 
 
+TECHNIQUE = 'runtime monitoring: bijection oracle (len / iteration / values / lookup / membership against a list model) over construction routes, derivations and grow-only histories with stale caches; hook invariants on Index and IndexLevel state'
+
+
 def probes(ctx):
     return []
 
